@@ -5,7 +5,15 @@ calls (their call id is smaller than the id just drawn), so they are no-ops; the
 -/
 namespace JoblibModel.ParallelProto
 
-/-- No call is in progress on the `Parallel` object (state at creation, or after a call has ended). -/
+/-- All parked batches belong to other calls than the current one. -/
+def AllStale (s : St) : Prop := ∀ i ∈ s.parked, (getTrk s i).callId ≠ s.callId
+
+/-- Every completion the backend can deliver now is a no-op on the `Parallel` object: the call is aborting (the
+callback returns at its abort guard), or every parked batch belongs to another call (call-id guard). -/
+def Quiet (s : St) : Prop := s.aborting = true ∨ AllStale s
+
+/-- No call is in progress on the `Parallel` object (state at creation, or after a call has ended): not running, no
+job queue, and whatever is still parked at the backend can only complete as a no-op. -/
 structure Idle (s : St) : Prop where
   running : s.running = false
   jobs : s.jobs = []
@@ -13,11 +21,9 @@ structure Idle (s : St) : Prop where
   callId_le : ∀ i, (getTrk s i).callId ≤ s.callCtr
   parked_lt : ∀ i ∈ s.parked, i < s.trk.length
   parked_nodup : s.parked.Nodup
+  quiet : Quiet s
 
-/-- All parked batches belong to other calls than the current one. -/
-def AllStale (s : St) : Prop := ∀ i ∈ s.parked, (getTrk s i).callId ≠ s.callId
-
-/-- Only the backend's bookkeeping moved (some parked batches of other calls were completed). -/
+/-- Only the backend's bookkeeping moved (some parked batches were completed without any effect). -/
 def StaleRel (s s' : St) : Prop :=
   ∃ lg pk sc ib, s' = { s with log := lg, parked := pk, sched := sc, inCb := ib } ∧
     pk.Sublist s.parked ∧ sc.length ≤ s.sched.length
@@ -37,7 +43,22 @@ theorem StaleRel.allStale {s s' : St} (h : StaleRel s s') (hs : AllStale s) : Al
   subst e
   exact fun i hi => hs i (hsub.subset hi)
 
-theorem deliver_stale (c : Cfg) (k : Nat) {s : St} (hs : AllStale s) : StaleRel s (deliver c k s) := by
+theorem StaleRel.quiet {s s' : St} (h : StaleRel s s') (hq : Quiet s) : Quiet s' := by
+  rcases hq with hq | hq
+  · left
+    obtain ⟨lg, pk, sc, ib, e, _, _⟩ := h
+    subst e; exact hq
+  · exact Or.inr (h.allStale hq)
+
+theorem StaleRel.idle {s s' : St} (h : StaleRel s s') (hi : Idle s) : Idle s' := by
+  have hq := h.quiet hi.quiet
+  obtain ⟨lg, pk, sc, ib, e, hsub, _⟩ := h
+  subst e
+  exact ⟨hi.running, hi.jobs, hi.jobsSet, hi.callId_le, fun i hm => hi.parked_lt i (hsub.subset hm),
+    hi.parked_nodup.sublist hsub, hq⟩
+
+/-- A completion delivered while every possible completion is a no-op (`Quiet`). -/
+theorem deliver_quiet (c : Cfg) (k : Nat) {s : St} (hq : Quiet s) : StaleRel s (deliver c k s) := by
   unfold deliver
   cases hk : s.parked[k]? with
   | none => exact StaleRel.refl s
@@ -49,10 +70,14 @@ theorem deliver_stale (c : Cfg) (k : Nat) {s : St} (hs : AllStale s) : StaleRel 
     obtain ⟨s3, failed⟩ := res
     simp only at hex ⊢
     simp only [ev] at hex
-    rw [stale_callback_noop c _ i failed (by rw [hex]; exact hs i (List.mem_of_getElem? hk))]
+    have hno : callback c { s3 with inCb := true } i failed = { s3 with inCb := true } := by
+      rcases hq with hq | hq
+      · exact aborting_callback_noop c _ i failed (by rw [hex]; exact hq)
+      · exact stale_callback_noop c _ i failed (by rw [hex]; exact hq i (List.mem_of_getElem? hk))
+    rw [hno]
     refine ⟨lg, s.parked.eraseIdx k, s.sched, false, by rw [hex], List.eraseIdx_sublist _ _, Nat.le_refl _⟩
 
-theorem deliverAll_stale (c : Cfg) : ∀ (l : List Nat) {s : St}, AllStale s → StaleRel s (deliverAll c s l) := by
+theorem deliverAll_quiet (c : Cfg) : ∀ (l : List Nat) {s : St}, Quiet s → StaleRel s (deliverAll c s l) := by
   intro l
   induction l with
   | nil => intro s _; exact StaleRel.refl s
@@ -63,10 +88,12 @@ theorem deliverAll_stale (c : Cfg) : ∀ (l : List Nat) {s : St}, AllStale s →
     by_cases hp : s.parked.length = 0
     · rw [if_pos hp]; exact ih hs
     · rw [if_neg hp]
-      have h1 := deliver_stale c (idx % s.parked.length) hs
-      exact h1.trans (ih (h1.allStale hs))
+      have h1 := deliver_quiet c (idx % s.parked.length) hs
+      exact h1.trans (ih (h1.quiet hs))
 
-theorem hook_nosleep_stale (c : Cfg) {s : St} (hs : AllStale s) : StaleRel s (hook c false s) := by
+/-- A hook point (not the retrieval loop's sleep) reached while every possible completion is a no-op: whatever the
+schedule delivers, only the backend's bookkeeping (`parked`, the log, the schedule) changes. -/
+theorem hook_nosleep_quiet (c : Cfg) {s : St} (hs : Quiet s) : StaleRel s (hook c false s) := by
   unfold hook
   cases hsch : s.sched with
   | nil => simp only [Bool.false_eq_true, if_false]; exact StaleRel.refl s
@@ -74,7 +101,21 @@ theorem hook_nosleep_stale (c : Cfg) {s : St} (hs : AllStale s) : StaleRel s (ho
     simp only [Bool.false_eq_true, if_false]
     have h0 : StaleRel s { s with sched := rest } :=
       ⟨s.log, s.parked, rest, s.inCb, rfl, List.Sublist.refl _, by rw [hsch]; simp⟩
-    exact h0.trans (deliverAll_stale c entry (h0.allStale hs))
+    exact h0.trans (deliverAll_quiet c entry (h0.quiet hs))
+
+theorem deliver_stale (c : Cfg) (k : Nat) {s : St} (hs : AllStale s) : StaleRel s (deliver c k s) :=
+  deliver_quiet c k (Or.inr hs)
+
+theorem hook_nosleep_stale (c : Cfg) {s : St} (hs : AllStale s) : StaleRel s (hook c false s) :=
+  hook_nosleep_quiet c (Or.inr hs)
+
+/-- BETWEEN CALLS. At the hook point between two calls (and after the last one) the object is idle: completions of
+batches of earlier calls that arrive there — trackers of older calls, or of the call that just ended (which is
+aborting if anything of it is still parked) — change nothing but the backend's bookkeeping, and the object stays
+idle. -/
+theorem between_calls_noop (c : Cfg) {s : St} (hi : Idle s) :
+    StaleRel s (hook c false s) ∧ Idle (hook c false s) :=
+  ⟨hook_nosleep_quiet c hi.quiet, (hook_nosleep_quiet c hi.quiet).idle hi⟩
 
 /-- The state `callStart` hands to `_start`. -/
 structure Fresh (c : Cfg) (base : Nat) (spec : CallSpec) (s sF : St) : Prop where
